@@ -17,15 +17,18 @@ RULE = (
     "kinds. rr: line-ups of 1-6 cheap samplers (repeated classes, batch sizes 1-3) given as a list or as a RoundRobinScheduler, "
     "1-12 batches; for n <= 5 every composition of n into calibrate() calls, each boundary with or without checkpoint/restore, "
     "sampled beyond; oracle: the i-th batch over the calibrator's life is produced by the object at position i mod n of the "
-    "scheduler's sampler tuple and has that sampler's batch size. rl: RLScheduler with scripted or epsilon-greedy agents, with "
-    "and without a supplied Halton sampler, 1-3 sessions; oracle: first batch ever by the bootstrap Halton sampler (the "
+    "scheduler's sampler tuple and has that sampler's batch size; variants: one sampler object twice in the line-up, the caller "
+    "mutating its list after construction, the scheduler re-seeded between calls, a convergence criterion met by every batch "
+    "(each call stops after one batch and the rotation continues). rl: RLScheduler with scripted or epsilon-greedy agents, with "
+    "and without a supplied Halton sampler (then with n or n+1 actions), 1-3 sessions plus sessions without batches, losses "
+    "including exact 0.0 and a non-finite bootstrap loss; oracle: first batch ever by the bootstrap Halton sampler (the "
     "supplied one if present), every later batch by samplers[a] for the k-th policy result a of its session, only supplied "
     "samplers or the bootstrap are used. ctor: the four samplers/scheduler argument combinations; exactly one accepted, "
     "both-or-neither -> ValueError. Non-trivial = n >= 2 with a split or restore not on a multiple of n; distinct by "
     "(line-up, cut labelling)."
 )
 ASSUMPTIONS = ["cheap sampler classes only (order, not numerics, is at stake)", "the RL scheduler cannot be checkpointed (known finding under C04): RL runs use no restore"]
-REQUIRED_COUNTERS = {"rr_set_samplers_between_calls": 10, "rr_failed_batches_then_retry": 10, "rl_runs_with_a_zero_loss": 5, "rr_batches": 400, "rr_runs": 80, "rr_restores": 40, "rl_batches": 60, "rl_sessions": 25, "ctor_combinations": 8}
+REQUIRED_COUNTERS = {"rr_lineups_with_one_object_twice": 3, "rr_runs_converging_every_batch": 5, "rr_scheduler_reseeded_between_calls": 8, "rr_caller_mutated_its_list": 5, "rl_sessions_without_batches": 3, "rl_agent_may_choose_the_appended_bootstrap": 3, "rr_set_samplers_between_calls": 10, "rr_failed_batches_then_retry": 10, "rl_runs_with_a_zero_loss": 5, "rr_batches": 400, "rr_runs": 80, "rr_restores": 40, "rl_batches": 60, "rl_sessions": 25, "ctor_combinations": 8}
 SHARDS = {"quick": 16, "thorough": 16}
 SHARD_WATCHDOG = {"quick": 1500, "thorough": 10800}
 
@@ -59,6 +62,15 @@ def run_rr(desc, ctx, out):
     cfg = CG.gen_config(rng, kinds=G.CHEAP, n_samplers=int(rng.integers(1, 7)), max_bs=3, loss_kinds=["minkowski"], max_params=2, ensemble=1,
                         scheduler=str(rng.choice(["list", "rr"])))
     L = len(cfg["lineup"])
+    if L >= 3 and desc["i"] % 5 == 1:
+        # the same sampler object twice in the line-up (double weight for one strategy): still n positions
+        i0, j0 = 0, int(rng.integers(2, L))
+        cfg["lineup"][j0] = dict(cfg["lineup"][i0])
+        cfg["alias"] = [[i0, j0]]
+        c["rr_lineups_with_one_object_twice"] = c.get("rr_lineups_with_one_object_twice", 0) + 1
+    always_converged = desc["i"] % 6 == 4    # the convergence criterion is met by every batch: each calibrate() call stops after one batch
+    if always_converged:
+        cfg["conv"] = 3
     n = int(rng.integers(1, 6)) if desc["i"] % 2 == 0 else int(rng.integers(6, 13))
     comps = list(compositions(n)) if n <= 5 else [sorted(rng.choice(range(1, n), size=int(rng.integers(1, 4)), replace=False).tolist()) for _ in range(3)]
     if n > 5:
@@ -68,8 +80,18 @@ def run_rr(desc, ctx, out):
         restores = [bool(rng.random() < 0.5) for _ in parts[:-1]]
         wit = {"lineup": [(d["kind"], d["batch_size"]) for d in cfg["lineup"]], "scheduler": cfg["scheduler"], "calls": parts, "restore_after_call": restores}
         folder = str(ctx.scratch() / "ck")
+        keep = {}
         with quiet():
-            cal = CG.build_calibrator(cfg, folder=folder)
+            cal = CG.build_calibrator(cfg, folder=folder, keep=keep)
+        if cfg["scheduler"] == "list" and rng.random() < 0.3:
+            # the caller goes on using its list (appends a sampler for another experiment, reverses it): the running line-up is unaffected
+            keep["samplers"].append(G.build_sampler(G.gen_sampler_desc(rng, "RandomUniform", batch_size=3)))
+            keep["samplers"].reverse()
+            c["rr_caller_mutated_its_list"] = c.get("rr_caller_mutated_its_list", 0) + 1
+            wit["caller_mutated_its_list_after_construction"] = True
+        if always_converged:
+            cal.check_convergence = lambda *a, **k: True
+            wit["convergence_met_by_every_batch"] = True
         order = []
         lineups = [list(cfg["lineup"])]      # line-up in force for each batch index
         cur_lineup = list(cfg["lineup"])
@@ -86,7 +108,12 @@ def run_rr(desc, ctx, out):
                     cur_lineup = newl
                     c["rr_set_samplers_between_calls"] = c.get("rr_set_samplers_between_calls", 0) + 1
                     wit.setdefault("set_samplers_before_call", {})[k] = [(d_["kind"], d_["batch_size"]) for d_ in newl]
-                expect += [cur_lineup] * m
+                if k > 0 and rng.random() < 0.15:
+                    # re-seeding the scheduler (e.g. after a restore, for a reproducible continuation) does not move the rotation
+                    cal.scheduler.random_state = int(rng.integers(2**31))
+                    c["rr_scheduler_reseeded_between_calls"] = c.get("rr_scheduler_reseeded_between_calls", 0) + 1
+                    wit.setdefault("scheduler_reseeded_before_call", []).append(k)
+                expect += [cur_lineup] * (1 if always_converged else m)
                 if k > 0 and rng.random() < 0.25:
                     # a batch fails (the model raises once) and the user simply calls calibrate() again: the schedule must not shift
                     from vlib import models as MM
@@ -104,36 +131,43 @@ def run_rr(desc, ctx, out):
                     with quiet():
                         cal.calibrate(m)
                 for (bidx, smp, pos, cname, ret) in mon.batches():
-                    order.append((pos, cname, None if ret is None else len(ret), smp.batch_size))
+                    order.append((pos, cname, None if ret is None else len(ret), smp.batch_size, smp, tuple(cal.scheduler.samplers)))
                 if k < len(parts) - 1 and restores[k]:
                     with quiet():
                         cal = Calibrator.restore_from_checkpoint(folder, model)
+                    if always_converged:
+                        cal.check_convergence = lambda *a, **k: True
                     c["rr_restores"] = c.get("rr_restores", 0) + 1
         except Exception as e:  # noqa: BLE001
             out["violations"].append({"msg": f"run raised {type(e).__name__}: {str(e)[:160]}", "witness": wit})
             return
         c["rr_runs"] = c.get("rr_runs", 0) + 1
         out["evals"] += 1
-        if len(order) != n:
-            out["violations"].append({"msg": f"{len(order)} batches were scheduled for calls {parts}", "witness": wit})
+        n_exp = len(parts) if always_converged else n
+        if always_converged:
+            c["rr_runs_converging_every_batch"] = c.get("rr_runs_converging_every_batch", 0) + 1
+        if len(order) != n_exp:
+            out["violations"].append({"msg": f"{len(order)} batches were scheduled for calls {parts}" + (" (each call stops after one batch)" if always_converged else ""), "witness": wit})
             continue
-        for i, (pos, cname, rows, bs) in enumerate(order):
+        for i, (pos, cname, rows, bs, smp, tup) in enumerate(order):
             c["rr_batches"] = c.get("rr_batches", 0) + 1
             Li = len(expect[i])
             exp = expect[i][i % Li]
-            if pos != i % Li:
+            if len(tup) != Li or tup[i % Li] is not smp:     # identity, not first index: an object may sit at two positions
                 out["violations"].append({"msg": f"batch {i} of the calibrator's life was produced by position {pos} ({cname}), round-robin over {Li} samplers prescribes position {i % Li} "
                                                  f"(calls {parts}, restore after call {restores})", "witness": wit})
                 break
             if rows != exp["batch_size"] or cname != G.class_name(exp["kind"]):
                 out["violations"].append({"msg": f"batch {i}: {rows} rows from {cname}, prescribed {exp['batch_size']} rows from {G.class_name(exp['kind'])}", "witness": wit})
                 break
+        n = n_exp
         exp_rows = sum(expect[i][i % len(expect[i])]["batch_size"] for i in range(n))
         if cal.n_sampled_params != exp_rows:
             out["violations"].append({"msg": f"{cal.n_sampled_params} rows recorded, the prescribed batches sum to {exp_rows}", "witness": wit})
         bn = np.repeat(np.arange(n), [expect[i][i % len(expect[i])]["batch_size"] for i in range(n)])
         if cal.n_sampled_params == exp_rows and not np.array_equal(cal.batch_num_samp, bn):
             out["violations"].append({"msg": f"batch labels {cal.batch_num_samp.tolist()} expected {bn.tolist()}", "witness": wit})
+        n = sum(parts)
         cuts = np.cumsum(parts)[:-1]
         if L >= 2 and any(int(x) % L for x in cuts):
             out["nontrivial"].append(jhash([wit]))
@@ -166,8 +200,15 @@ def run_rl(desc, ctx, out):
     scripted = desc["i"] % 2 == 0
     n_supplied = len(cfg["lineup"])
     sessions = [int(x) for x in rng.integers(1, 4, size=int(rng.integers(1, 4)))]
-    wit = {"lineup": [(d["kind"], d["batch_size"]) for d in cfg["lineup"]], "sessions": sessions, "agent": "scripted" if scripted else "egreedy"}
-    script = [int(x) for x in rng.integers(0, n_supplied, size=40)]
+    if rng.random() < 0.25:
+        sessions.insert(int(rng.integers(0, len(sessions) + 1)), 0)     # calibrate(0): a session without any batch
+        c["rl_sessions_without_batches"] = c.get("rl_sessions_without_batches", 0) + 1
+    # without a supplied Halton the scheduler appends one: the natural number of actions is then len(scheduler.samplers) = n + 1
+    n_actions = n_supplied + (1 if (not seenh and rng.random() < 0.5) else 0)
+    if n_actions > n_supplied:
+        c["rl_agent_may_choose_the_appended_bootstrap"] = c.get("rl_agent_may_choose_the_appended_bootstrap", 0) + 1
+    wit = {"lineup": [(d["kind"], d["batch_size"]) for d in cfg["lineup"]], "sessions": sessions, "agent": "scripted" if scripted else "egreedy", "n_actions": n_actions}
+    script = [int(x) for x in rng.integers(0, n_actions, size=40)]
 
     import threading
 
@@ -198,8 +239,8 @@ def run_rl(desc, ctx, out):
         from black_it.schedulers.rl.rl_scheduler import RLScheduler
         from vlib import lossgen as LG
 
-        agent = Scripted() if scripted else LoggedEG(n_supplied, alpha=0.3, eps=0.4, initial_values=0.0)
-        sched = RLScheduler(samplers, agent=agent, env=MABCalibrationEnv(n_supplied))
+        agent = Scripted() if scripted else LoggedEG(n_actions, alpha=0.3, eps=0.4, initial_values=0.0)
+        sched = RLScheduler(samplers, agent=agent, env=MABCalibrationEnv(n_actions))
         exact_losses = desc["i"] % 3 == 0
         if exact_losses:
             # scripted losses (model output == loss exactly), including a perfect fit: loss 0.0 at some batch
@@ -208,9 +249,14 @@ def run_rl(desc, ctx, out):
 
             vals = [float(x) for x in np.round(rng.uniform(0.5, 3.0, size=40), 3)]
             vals[int(rng.integers(0, 4))] = 0.0
+            from vlib.userloss import SentinelLoss
+
+            if rng.random() < 0.3:
+                vals[0] = float(rng.choice([SentinelLoss.INF, SentinelLoss.NAN]))     # the bootstrap batch yields inf / nan as loss: the agent still takes over at batch 2
+                c["rl_runs_with_nonfinite_first_loss"] = c.get("rl_runs_with_nonfinite_first_loss", 0) + 1
             wit["scripted_losses_head"] = vals[:8]
             c["rl_runs_with_a_zero_loss"] = c.get("rl_runs_with_a_zero_loss", 0) + 1
-            cal = Calibrator(loss_function=MinkowskiLoss(p=1), real_data=np.zeros((1, 1)), model=MM.Scripted(vals),
+            cal = Calibrator(loss_function=SentinelLoss(p=1), real_data=np.zeros((1, 1)), model=MM.Scripted(vals),
                              parameters_bounds=np.array(cfg["space"]["bounds"]), parameters_precision=np.array(cfg["space"]["precision"]),
                              ensemble_size=1, scheduler=sched, verbose=False, random_state=cfg["seed"], n_jobs=1)
         else:
@@ -304,6 +350,21 @@ def run_ctor(desc, ctx, out):
             if not isinstance(err, ValueError):
                 got = "no exception" if err is None else f"{type(err).__name__}: {err}"
                 out["violations"].append({"msg": f"samplers {'and' if has_s else 'nor'} scheduler given: expected ValueError, got {got}", "witness": wit})
+    # both given in less obvious ways: an empty sequence counts as given; the same objects in both arguments are still "both"
+    shared = [RandomUniformSampler(1), HaltonSampler(2)]
+    for label, s_arg, sc_arg in (("empty list and a scheduler", [], RoundRobinScheduler([HaltonSampler(1)])),
+                                 ("empty tuple and a scheduler", (), RoundRobinScheduler([HaltonSampler(1)])),
+                                 ("a list and a scheduler built on the very same sampler objects", shared, RoundRobinScheduler(shared))):
+        c["ctor_combinations"] = c.get("ctor_combinations", 0) + 1
+        out["evals"] += 1
+        try:
+            make(s_arg, sc_arg)
+            err = None
+        except Exception as e:  # noqa: BLE001
+            err = e
+        if not isinstance(err, ValueError):
+            got = "no exception" if err is None else f"{type(err).__name__}: {err}"
+            out["violations"].append({"msg": f"samplers and scheduler both given ({label}): expected ValueError, got {got}", "witness": {"case": label}})
     out["nontrivial"].append(f"ctor{desc['i']}")
 
 
